@@ -175,6 +175,15 @@ RIGID_TOL = 1e-9
 # single residual is bounded by that norm; this is a mathematical bound (plus the same 1e-4), not an empirical
 # margin.
 ALIGN_TOL = 1e-4
+# Mirror-flipped situations (generating transform = half turn about X/Y/Z composed with a < 30 deg motion) are
+# NOT "misalignment below 30 degrees"; the statement only promises that the flipped answer is corrected. What
+# is demanded there: the two sign decisions (x samples at X > 0, stations at Z > 0), the rigid-motion clauses,
+# and that the samples land where they belong at the statement's own noise level (1 mm, "mild noise") rather
+# than at optimiser precision - enough to expose a flip composed in the wrong order or about the wrong axis
+# (errors of decimetres), while not turning the optimiser's evaluation cap into a property of the statement.
+# Measured worst on the thorough grid: 2.1e-4 m (two grid points where scipy stops at max_nfev=10, see the
+# 'aligner_runs_stopped_by_evaluation_cap' counters in the evidence), all other flipped points <= 1e-8 m.
+FLIP_TOL = 1e-3
 
 
 def unit(axis):
@@ -271,7 +280,17 @@ def check_align(p, case):
     origin, x_axis, xy_plane, bs_poses, bs_ref, M, cost_m = build_align_inputs(case)
     before = snap_all(origin, x_axis, xy_plane, bs_poses)
     txt = case_text(case)
+    import scipy.optimize
+    runs = []
+    real_lsq = scipy.optimize.least_squares
+
+    def observing_lsq(*a, **kw):
+        """Pure observation (for the evidence counters only): how many evaluations scipy used."""
+        r = real_lsq(*a, **kw)
+        runs.append((int(r.nfev), int(r.status)))
+        return r
     try:
+        scipy.optimize.least_squares = observing_lsq
         with warnings.catch_warnings():
             # scipy's trust-region code emits RuntimeWarnings (0/0 in its own step-size bracket) when the
             # start point already has zero residual; the outcome is judged by the oracle below.
@@ -281,6 +300,17 @@ def check_align(p, case):
     except Exception as e:  # noqa
         p.violation('align:raises:' + cls, 'align raised %r for %s' % (e, txt), rp)
         return cls, None
+    finally:
+        scipy.optimize.least_squares = real_lsq
+    if case['envelope']:
+        where = 'flipped' if case['flip'] != 'none' else 'below_30deg'
+        for nfev, status in runs:
+            if VERBOSE:
+                print('  scipy least_squares: nfev=%d status=%d (0 = stopped by the evaluation cap)' % (nfev, status))
+            if status == 0:
+                p.add('aligner_runs_stopped_by_evaluation_cap_' + where)
+            elif nfev >= 10:
+                p.add('aligner_runs_converged_on_last_allowed_evaluation_' + where)
     after = snap_all(origin, x_axis, xy_plane, bs_poses)
     p.flag('align:inputs_modified', cls, before != after, lambda: 'align modified its inputs for ' + txt, rp)
     ok_struct = isinstance(result, dict) and list(result.keys()) == list(bs_poses.keys()) and isinstance(T, Pose) \
@@ -340,8 +370,9 @@ def check_align(p, case):
     if not case['envelope']:
         return cls, None
     # (2) where the samples land (misalignment < 30 deg, modulo the mirror flip)
-    tol = cost_m + ALIGN_TOL
-    tr = '|noisy(bound)' if case['noise'] else '|exact'
+    flipped = case['flip'] != 'none'
+    tol = cost_m + (FLIP_TOL if flipped else ALIGN_TOL)
+    tr = ('|flipped' if flipped else '|below_30deg') + ('_noisy(bound)' if case['noise'] else '_exact')
     o = apply(HT, origin)
     p.chk('align:origin_to_zero', cls, float(np.max(np.abs(o))), tol,
           lambda: 'origin sample maps to %r, not (0,0,0) (%s)' % (o, txt), rp, 'align:origin_to_zero' + tr)
